@@ -271,6 +271,8 @@ def call(name, ctx, a, fault=None):
         raise ValueError(kind)
     except Skip:
         return Outcome('skipped')
+    except ops.PurityViolation as e:
+        return Outcome('impure', exc=e)
     except Exception as e:
         return Outcome('raised', exc=e)
 
@@ -301,6 +303,8 @@ def _entry_label(name, a):
         return f'{name}:{a["which"]}'
     if name == 'cacg.from_covariance':
         return 'ComplexAngularCentralGaussian.from_covariance'
+    if name == 'recycle':
+        return 'recycle:' + _entry_label(a['target'], a['a'])
     if name.endswith('.fit') and 'method' in a:
         return f'{name[:-4]}.{a["method"]}'
     return name
@@ -341,6 +345,10 @@ def run_op(world, idx, op):
         world.sched.append('skip')
         return
     label = _entry_label(name, a)
+    if out.kind == 'impure':
+        _viol(world, 'O2', idx, name, a, str(out.exc), fault=fault)
+        world.log.append([idx, label, 'impure'])
+        return
     world.count('ops_executed')
     world.count('entry:' + label.split(':')[0])
     world.add('entry_points', label)
@@ -797,14 +805,23 @@ def _remap_after_insert(old_ops, new_ops):
         if op.get('op') in ('env.draws', 'env.seterr'):
             out.append(op)
             continue
-        a = op['a']
-        if isinstance(a.get('model'), int) or isinstance(a.get('src'), int):
-            op = copy.deepcopy(op)
-            if isinstance(op['a'].get('model'), int):
-                op['a']['model'] = pos[op['a']['model']]
-            if isinstance(op['a'].get('src'), int):
-                op['a']['src'] = pos[op['a']['src']]
+        op = copy.deepcopy(op)
+        for a in _ref_holders(op['a']):
+            if isinstance(a.get('model'), int):
+                a['model'] = pos[a['model']]
+            if isinstance(a.get('src'), int):
+                a['src'] = pos[a['src']]
         out.append(op)
+    return out
+
+
+def _ref_holders(a):
+    """The dicts of an operation's arguments that may hold a model reference
+    (the arguments themselves and, for wrapping operations such as 'recycle',
+    the wrapped arguments)."""
+    out = [a]
+    if isinstance(a.get('a'), dict):
+        out.append(a['a'])
     return out
 
 
@@ -816,15 +833,15 @@ def _drop(program, i):
     q = copy.deepcopy(program)
     del q['ops'][i]
     for op in q['ops']:
-        a = op.get('a')
-        if not a:
+        if not op.get('a'):
             continue
-        for key in ('model', 'src'):
-            if isinstance(a.get(key), int):
-                if a[key] == i:
-                    a[key] = -1 if key == 'model' else -1
-                elif a[key] > i:
-                    a[key] -= 1
+        for a in _ref_holders(op['a']):
+            for key in ('model', 'src'):
+                if isinstance(a.get(key), int):
+                    if a[key] == i:
+                        a[key] = -1
+                    elif a[key] > i:
+                        a[key] -= 1
     return q
 
 
